@@ -333,6 +333,20 @@ def tree_case(case):
     if root.num_params(trainable=True) != 0 or root.num_params(non_trainable=True) != sum(exp): viol.append({"kind": "tree:num_params", "detail": "trainable/frozen split after freeze"})
     root.unfreeze()
     if not all(p.requires_grad for p in root.parameters()): viol.append({"kind": "tree:unfreeze", "detail": f"tree {shape}"})
+    # the same calls issued while gradient tracking is switched off (a fine-tuning callback during validation): what a
+    # module call does to its tree does not depend on the gradient mode
+    sg_ = harness.load()
+    for cname, ctx in (("no_grad", sg_.no_grad), ("retain_grads", sg_.retain_grads)):
+        with ctx():
+            root.freeze(); fr = [p.requires_grad for p in root.parameters()]
+            root.unfreeze(); un = [p.requires_grad for p in root.parameters()]
+            root.eval(); ev = [m.training for m in allmods]
+            root.train(); tr = [m.training for m in allmods]
+        un2 = [p.requires_grad for p in root.parameters()]
+        if any(fr): viol.append({"kind": "tree:freeze", "detail": f"tree {shape}: freeze() inside {cname} left trainable parameters"})
+        if not all(un) or not all(un2): viol.append({"kind": "tree:unfreeze", "detail": f"tree {shape}: unfreeze() inside {cname} left frozen parameters"})
+        if any(ev) or not all(tr): viol.append({"kind": "tree:mode-not-propagated", "detail": f"tree {shape}: eval()/train() inside {cname}"})
+        if root.num_params(trainable=True) != sum(exp): viol.append({"kind": "tree:num_params", "detail": f"trainable count after unfreeze inside {cname}"})
     return viol
 
 def run(tier, seed):
